@@ -104,3 +104,19 @@ package common
 //@ func (Dialer).Dial
 //@   flag trusted
 //@   ensures newConn: ret1 == nil ==> ret0 != nil && fresh(ret0) && outlen(ret0) == 0
+
+// ---------------------------------------------------------------------------------------------
+// Copy (C01, C03, C09): the relay between a proxied connection and a stream (both directions, client
+// and server). On the generic path (neither end offers WriteTo/ReadFrom) every chunk read from src is
+// written to dst as it is - the same bytes, the same count, before the next read - so what dst has
+// received is, byte for byte and in order, what was consumed from src; both ends are closed on return.
+// ---------------------------------------------------------------------------------------------
+//@ func Copy
+//@   requires dst != nil && src != nil
+//@   atcall Write requires exactlyWhatWasRead: sameSlice(arg0.([]byte), buf[0:nr])
+//@   ensures bothClosed: closedconn(src) && closedconn(dst)
+//@   ensures relayedPrefix: !called("(io.WriterTo).WriteTo") && !called("(io.ReaderFrom).ReadFrom") ==> outlen(dst) - old(outlen(dst)) <= inpos(src) - old(inpos(src)) && (forall k int :: 0 <= k && k < outlen(dst) - old(outlen(dst)) ==> outbyte(dst, old(outlen(dst)) + k) == inbyte(src, old(inpos(src)) + k))
+//@   modifies *
+//@   loop 0 invariant relayed: outlen(dst) - old(outlen(dst)) == inpos(src) - old(inpos(src)) && err == nil
+//@   loop 0 invariant inOrder: forall k int :: 0 <= k && k < inpos(src) - old(inpos(src)) ==> outbyte(dst, old(outlen(dst)) + k) == inbyte(src, old(inpos(src)) + k)
+//@   loop 0 invariant buffer: len(buf) == 32768 && size == 32768
